@@ -178,7 +178,31 @@ class C11(vlib.Driver):
                 ops.append(["clear"]); size = 0
         return {"kind": "exact", "cap": m, "alpha": 1.0, "beta": 0.4, "ops": ops, "every": every}
 
+    @staticmethod
+    def _with_ranges(rng, case):
+        """range queries sum(start, end) / min(start, end) after a few ops (end exclusive, 0 = up to capacity)"""
+        c = 1
+        while c < case["cap"]:
+            c *= 2
+        rg = {}
+        for oi in rng.sample(range(len(case["ops"])), min(len(case["ops"]), rng.choice([1, 2, 3]))):
+            qs = []
+            for _ in range(rng.choice([1, 2, 3])):
+                a = rng.randrange(c)
+                b = rng.choice([0, a + 1, c, rng.randint(a + 1, c)])
+                qs.append([a, b])
+            rg[str(oi)] = qs
+        case["ranges"] = rg
+        return case
+
     def generate(self, tier, rng):
+        cases = self._generate(tier, rng)
+        for i, c in enumerate(cases):
+            if i % 2 == 0:
+                self._with_ranges(rng, c)
+        return cases
+
+    def _generate(self, tier, rng):
         cases = []
         # --- boundary-complete small enumeration (exact kind: compared with both instances, strict oracle)
         caps = [1, 2, 3] if tier == "quick" else [1, 2, 3, 4]
@@ -265,6 +289,10 @@ class C11(vlib.Driver):
                 rec["tcap"] = int(buf.sum_tree.capacity)
                 rec["sum"] = [float(x) for x in buf.sum_tree.tree]
                 rec["min"] = [None if x == INF else float(x) for x in buf.min_tree.tree]      # None = float("inf")
+                rec["ranges"] = []
+                for a, b in case.get("ranges", {}).get(str(len(trace)), []):
+                    mv = float(buf.min_tree.min(a, b))
+                    rec["ranges"].append([a, b, float(buf.sum_tree.sum(a, b)), None if mv == INF else mv])
                 rec["sum_root"] = float(buf.sum_tree.sum())
                 mr = float(buf.min_tree.min())
                 rec["min_root"] = None if mr == INF else mr
@@ -333,7 +361,8 @@ class C11(vlib.Driver):
                        + "; ".join(num(w) for w in (rec["sample"]["w"] if not as_q else [1.0] * len(rec["sample"]["idx"]))) + "]))")
             else:
                 smp = "None"
-            obl.append(f"({rec['len']}, {rec['ptr']}, {num(rec['maxp'])}, {trees}, {vlib.coq_bool(rec['raised'])}, {smp})")
+            rngs = "[" + "; ".join(f"({a}, {b}, {num(sv)}, {onum(mv)})" for a, b, sv, mv in rec.get("ranges", [])) + "]"
+            obl.append(f"({rec['len']}, {rec['ptr']}, {num(rec['maxp'])}, {trees}, {vlib.coq_bool(rec['raised'])}, {smp}, {rngs})")
         if as_q:
             return f"check_exact {case['cap']} [{'; '.join(ops)}] [{'; '.join(obl)}]"
         ta = "[" + "; ".join(f"({cq_f(k)}, {cq_f(v)})" for k, v in tabA.items()) + "]"
@@ -394,6 +423,13 @@ class C11(vlib.Driver):
                 if mt[j] != min(mt[2 * j], mt[2 * j + 1]):
                     V("min-node", f"min_tree.tree[{j}]={mt[j]!r} != min of its children {mt[2 * j]!r},{mt[2 * j + 1]!r}")
                     break
+            for a, b, sv, mv in rec.get("ranges", []):
+                hi = b if b > 0 else c
+                want_s, want_m = math.fsum(leaves[a:hi]), min(mleaves[a:hi])
+                if not math.isclose(sv, want_s, rel_tol=1e-9, abs_tol=0.0):
+                    V("range-sum", f"sum_tree.sum({a},{b})={sv!r} but leaves[{a}:{hi}] add up to {want_s!r} (leaves {leaves})")
+                if (INF if mv is None else mv) != want_m:
+                    V("range-min", f"min_tree.min({a},{b})={mv!r} but the smallest of leaves[{a}:{hi}] is {want_m!r} (leaves {mleaves})")
             # ---- stored <-> positive priority; both trees hold the same priorities
             bad = [i for i in range(c) if (leaves[i] > 0) != (i < rec["len"])]
             if bad:
@@ -493,6 +529,8 @@ class C11(vlib.Driver):
             labs.append("sample-after-2-adds")
         for op, rec in zip(case["ops"], obs["trace"]):
             labs.append(f"op={op[0]}")
+            for a, b, _, _ in rec.get("ranges", []):
+                labs.append("range-query:" + ("full" if (a == 0 and b in (0, rec["tcap"])) else "single-leaf" if b == a + 1 else "partial"))
             if op[0] == "update":
                 if any(p < FLOOR for p in op[2]):
                     labs.append("branch:priority-floored")
